@@ -1,8 +1,142 @@
+import PyGam.Model.Sampling
 import PyGam.Drv.Common
+/-!
+Driver operations of C17 (`C17 <op> <args…>`), executing `Model/Sampling.lean` at `Float` with *supplied* generator
+results.  Numbers are IEEE doubles as bit patterns `b<uint64>`, counts are decimal integers.
+
+* `load <m> <cov>×m²`            → `loadDiagonal sqrtEpsMach cov` (m² floats)
+* `validate <quantity> <fitted:0|1> <nBoot:int> <nDraws:int> <dataOk:0|1>` → `ok | ValueError | AttributeError`
+* `sample <quantity> <fitted> <nBoot> <nDraws> <dataOk> <fam> <link> <levels> <scale|none>
+          <m> <nX> <nAt|-1> <nextra> <k> <idx>×k
+          <coef>×m <cov>×m² (<coef>×m <cov>×m²)×nextra <rowsX>×(nX·m) <rowsAt>×(nAt·m)
+          <ncalls> (<size_c> <u>×(size_c·m))×ncalls <nu> <uy>×nu`
+  → `ValueError | AttributeError | TypeError` or
+    `choice <k> <n> | calls (<b> <size>)… | args (<mean>×m <cov>×m²)… | <row> ; <row> ; …`
+
+  Supplied generators (the harness patches `numpy.random.*` with the same closed forms):
+  `choice k n = idx`;  `mvn` call `c`, entry `(p, j)` = `mean_j + cov_jj * u[c][p][j]`;
+  response entry `(d, i)`, `t = uy[d·rows + i]`: normal `loc + sd·t`, binomial `n·t + p`, poisson `lam·t`,
+  gamma `shape·t + scale`, wald `mean·t + scale`.
+-/
 namespace PyGam.Drv.C17
 open PyGam PyGam.Drv
 
-/-- operations of the C17 model driver (`C17 <op> <args…>`); `none` ↦ `bad-op` -/
+def parseBool? : String → Option Bool
+  | "1" => some true
+  | "0" => some false
+  | _ => none
+
+def parseFam? : String → Option Family
+  | "normal" => some .normal
+  | "binomial" => some .binomial
+  | "poisson" => some .poisson
+  | "gamma" => some .gamma
+  | "inv_gauss" => some .invGauss
+  | _ => none
+
+def parseOptFloat? (s : String) : Option (Option Float) :=
+  if s == "none" then some none else (parseFloat? s).map some
+
+def nanF : Float := 0.0 / 0.0
+
+def vecOf (a : Array Float) (off : Nat) : Nat → Float := fun i => a.getD (off + i) 0
+def matOf (m : Nat) (a : Array Float) (off : Nat) : Nat → Nat → Float := fun i j => a.getD (off + i * m + j) 0
+
+def showErr : SampleErr → String
+  | .valueError => "ValueError"
+  | .attributeError => "AttributeError"
+  | .typeError => "TypeError"
+
+def respFake (t : Float) : SamplerCall Float → Float
+  | .normal loc sd => loc + sd * t
+  | .binomial n p => n * t + p
+  | .poisson lam => lam * t
+  | .gamma k th => k * t + th
+  | .wald mean sc => mean * t + sc
+
+/-- take `n` float tokens -/
+def takeFloats? (n : Nat) (l : List String) : Option (Array Float × List String) :=
+  if l.length < n then none else do
+    let xs ← parseFloats? (l.take n)
+    some (xs.toArray, l.drop n)
+
+/-- parse `<ncalls> (<size> <u>×(size·m))×ncalls` -/
+def parseCalls? (m : Nat) : Nat → List String → Option (List (Nat × Array Float) × List String)
+  | 0, l => some ([], l)
+  | n+1, l => do
+      let size ← l.head?.bind String.toNat?
+      let (u, rest) ← takeFloats? (size * m) (l.drop 1)
+      let (more, rest) ← parseCalls? m n rest
+      some ((size, u) :: more, rest)
+
+def parseExtras? (m : Nat) : Nat → List String → Option (List (Boot Float) × List String)
+  | 0, l => some ([], l)
+  | n+1, l => do
+      let (c, rest) ← takeFloats? m l
+      let (v, rest) ← takeFloats? (m * m) rest
+      let (more, rest) ← parseExtras? m n rest
+      some (⟨vecOf c 0, matOf m v 0⟩ :: more, rest)
+
+def rowsOf (m n : Nat) (a : Array Float) : List (Nat → Float) :=
+  (List.range n).map (fun r => vecOf a (r * m))
+
 def handle : List String → Option String
+  | "load" :: m :: rest => do
+      let m ← m.toNat?
+      if rest.length ≠ m * m then none else
+      let cov := (← parseFloats? rest).toArray
+      some (showFloatList ((matToLists m m (loadDiagonal (sqrtEpsMach : Float) (matOf m cov 0))).flatten))
+  | ["validate", quantity, fitted, nBoot, nDraws, dataOk] => do
+      let fitted ← parseBool? fitted; let dataOk ← parseBool? dataOk
+      let nBoot ← nBoot.toInt?; let nDraws ← nDraws.toInt?
+      some (match validateSample (Quantity.ofName? quantity) fitted nBoot nDraws dataOk with
+        | none => "ok"
+        | some e => showErr e)
+  | "sample" :: quantity :: fitted :: nBoot :: nDraws :: dataOk :: fam :: link :: levels :: scale
+      :: m :: nX :: nAt :: nextra :: k :: rest => do
+      let fitted ← parseBool? fitted; let dataOk ← parseBool? dataOk
+      let nBoot ← nBoot.toInt?; let nDraws ← nDraws.toInt?
+      let fam ← parseFam? fam; let link ← LinkKind.ofName? link
+      let levels ← parseFloat? levels; let scale ← parseOptFloat? scale
+      let m ← m.toNat?; let nX ← nX.toNat?; let nAt ← nAt.toInt?
+      let nextra ← nextra.toNat?; let k ← k.toNat?
+      if rest.length < k then none else
+      let idx ← parseNats? (rest.take k)
+      let rest := rest.drop k
+      let (coef, rest) ← takeFloats? m rest
+      let (cov, rest) ← takeFloats? (m * m) rest
+      let (extra, rest) ← parseExtras? m nextra rest
+      let (rx, rest) ← takeFloats? (nX * m) rest
+      let (ra, rest) ← takeFloats? (nAt.toNat * m) rest
+      let ncalls ← rest.head?.bind String.toNat?
+      let (calls, rest) ← parseCalls? m ncalls (rest.drop 1)
+      let nu ← rest.head?.bind String.toNat?
+      let (uy, rest) ← takeFloats? nu (rest.drop 1)
+      if rest ≠ [] then none else
+      let s : SampleIn Float :=
+        { m := m, coef := vecOf coef 0, cov := matOf m cov 0, link := link, fam := fam, levels := levels,
+          scale := scale, rowsX := rowsOf m nX rx,
+          rowsAt := if nAt < 0 then none else some (rowsOf m nAt.toNat ra), extra := extra }
+      let nrows := s.rows.length
+      let callArr := calls.toArray
+      let g : Gens Float :=
+        { choice := fun _ _ => idx,
+          mvn := fun c bt _ p j =>
+            match callArr[c]? with
+            | some (_, u) => bt.coef j + bt.cov j j * (match u[p * m + j]? with | some t => t | none => nanF)
+            | none => nanF,
+          resp := fun d i call => respFake (match uy[d * nrows + i]? with | some t => t | none => nanF) call }
+      match sample g s (Quantity.ofName? quantity) fitted nBoot nDraws dataOk with
+      | .error e => some (showErr e)
+      | .ok v =>
+          let boots := bootstraps s.coef s.cov s.extra
+          let cl := mvnCalls idx
+          let args := cl.map (fun (b, _) => match boots[b]? with
+            | some bt => showFloatList (vecToList m bt.coef ++ (matToLists m m bt.cov).flatten)
+            | none => "index-error")
+          some (s!"choice {boots.length} {nDraws.toNat} | calls "
+            ++ joinWith " " (cl.map (fun (b, sz) => s!"{b} {sz}"))
+            ++ " | args " ++ joinWith " " args
+            ++ " | " ++ joinWith " ; " (v.map showFloatList))
   | _ => none
 end PyGam.Drv.C17
